@@ -17,6 +17,11 @@ package webtransport
 //@   props C14
 //@   requires t.txBytesCounter != nil
 //@   assert call SendTo: arg1 == t.sequenceNumber && t.sequenceNumber == (old(t.sequenceNumber) + 1) % 4294967296
+// a sequence number once drawn is never handed back, also when the send fails half way (the receiver
+// may already hold segments under it: reusing it would mix two messages)
+//@   ghostvar drew bool = false
+//@   after call AddUint32: drew = true
+//@   ensures t.sequenceNumber == ite(drew, (old(t.sequenceNumber) + 1) % 4294967296, old(t.sequenceNumber))
 
 // ---------------------------------------------------------------- C13: stream framing
 // (same framing as transport/quic; the assumed io.Writer contract is declared there)
@@ -111,3 +116,9 @@ package webtransport
 //@   ghostvar got []byte = nil
 //@   after call io.ReadAll: got = res0
 //@   ensures imp(result1 == nil, result0 == got)
+
+// The compressed frame is assembled in a buffer allocated by this very call: nobody else can write
+// into the bytes that are handed to the stream while they are in flight (no pooled or shared buffer).
+//@ func encodeWithCompression
+//@   props C13
+//@   assert call NewWriter: typeis(arg0, *bytes.Buffer) && fresh(unbox(arg0, *bytes.Buffer))
